@@ -328,10 +328,11 @@ def harnesses():
                       per_path=120, budget=900, require=("accepted",), group="token soup", functions=FNS))
     hs.append(Harness(id="C10.ctor.class3", fn=ctor_class("three"), bounds=["pattern: '[' ['^'] t1 t2 t3 ']' with solver-chosen class tokens"],
                       per_path=120, budget=2400, tier="thorough", require=("accepted",), group="token soup", functions=FNS))
-    for wid, (pre_, suf) in enumerate([("\\c", ""), ("\\", ""), ("[\\", "]"), ("(?", "a)"), ("\\u{", "}"), ("a{", "}"), ("[a-", "]"), ("\\x", ""), ("(?<", ">a)")]):
+    for wid, (pre_, suf) in enumerate([  # noqa
+            ("\\c", ""), ("\\", ""), ("[\\", "]"), ("(?", "a)"), ("\\u{", "}"), ("a{", "}"), ("[a-", "]"), ("\\x", ""), ("(?<", ">a)")]):
         hs.append(Harness(id="C10.ctor.wrapped.%d" % wid, fn=ctor_wrapped(pre_, suf, 1),
                           bounds=["pattern: %r + every string of length <= 1 over all code points + %r" % (pre_, suf)],
-                          per_path=60, budget=300, group="construction", functions=FNS))
+                          per_path=60, budget=300, group="construction", functions=FNS, must_exhaust=(pre_ != "\\u{")))
         hs.append(Harness(id="C10.ctor.wrapped2.%d" % wid, fn=ctor_wrapped(pre_, suf, 2),
                           bounds=["pattern: %r + every string of length <= 2 over all code points + %r (bug hunting: the "
                                   "parser's int()/isdigit() calls realise)" % (pre_, suf)],
